@@ -1,4 +1,5 @@
 import NdonnxVerif.Driver.Dtype
+import NdonnxVerif.Driver.Heap
 import NdonnxVerif.Driver.Index
 /-! Line-protocol driver: one request per line on stdin, one answer per line on stdout. -/
 open Ndx.Drv
@@ -8,6 +9,7 @@ def dispatch (line : String) : String :=
   | [] => "bad-op"
   | cmd :: args =>
     match cmd with
+    | "heap" => cmdHeap args
     | "rt" => cmdRt args
     | "scalar" => cmdScalar args
     | "fnlaw" => cmdFnLaw args
